@@ -7,6 +7,7 @@ P("C01",
             "programs + exact trace correspondence with timing.SerialEngine by vm_compute",
   level_text="(stage a) model and exact tie; theorems follow",
   level_note="Trusted: Coq kernel + vm_compute; the Go harness (script interpreter, trace recording); the hand-written model.",
+  quick_shards=8,
   assumptions=["nextSeq and event times are unbounded naturals (a uint64 wrap needs 2^64 pushes / times near 2^64)"],
   trusted=["modelled, not verified: timing/eventqueue.go (eventHeap, unsafeEventQueue), timing/serialengine.go (Schedule, Run, RunUntil, dispatchNext, nextEvent, nextEventTime)"],
   )
